@@ -8,6 +8,8 @@ Section Proofs.
   Variable cert_of : key -> cert.
   Variable sign : key -> msg -> sig.
   Variable verify : cert -> msg -> sig -> bool.
+  Variable readable : cert -> bool.
+  Variable blank : cert -> bool.
 
   (* ideal signatures (DESIGN 3.2): verification succeeds exactly for the signer's certificate, and
      a signature identifies the key that made it *)
@@ -26,10 +28,10 @@ Section Proofs.
       destruct u as [[|]|]; cbn; auto; try (contradiction Hu; reflexivity).
   Qed.
 
-  Lemma signing_certs_published (md : metadata cert) e c :
-    In c (signing_certs md (Some e)) <-> published_for_signing md e c.
+  Lemma walk_published (md : metadata cert) e c :
+    In c (walk_certs md (Some e)) <-> published_for_signing md e c.
   Proof.
-    unfold signing_certs, published_for_signing. destruct (lookup_md e md) as [roles|].
+    unfold walk_certs, published_for_signing. destruct (lookup_md e md) as [roles|].
     - rewrite in_flat_map. split.
       + intros [role [Hr Hc]]. apply extract_signing_in in Hc as [u [Hin Hu]].
         exists roles, role, u. auto.
@@ -38,19 +40,48 @@ Section Proofs.
     - split; [intros []|]. intros (roles & _ & _ & H & _). discriminate.
   Qed.
 
-  Lemma candidates_trusted (x : input cert msg sig) c : In c (candidates x) -> trusted_for x c.
+  Lemma blank_walk_iff (md : metadata cert) issuer :
+    existsb blank (walk_certs md issuer) = true <-> blank_published blank md issuer.
   Proof.
-    unfold candidates, trusted_for.
-    destruct (claimed x) as [e|] eqn:Ec.
-    - destruct (detached x) eqn:Ed.
-      + intros H. left. exists e. split; [reflexivity|]. apply signing_certs_published; exact H.
-      + destruct (signing_certs (md x) (Some e)) as [|c0 r] eqn:Es.
-        * destruct (only_md x) eqn:Eo; [intros []|]. intros H. right. repeat split; auto.
-          intros e' c' [= <-] Hp. apply signing_certs_published in Hp. rewrite Es in Hp. exact Hp.
-        * intros H. left. exists e. split; [reflexivity|]. apply signing_certs_published. rewrite Es. exact H.
-    - cbn [signing_certs]. destruct (detached x) eqn:Ed; [intros []|].
-      destruct (only_md x) eqn:Eo; [intros []|]. intros H. right. repeat split; auto.
-      intros e c' [=].
+    unfold blank_published. rewrite existsb_exists. split.
+    - intros [c [Hin Hb]]. destruct issuer as [e|]; [|destruct Hin].
+      exists e, c. split; [reflexivity|]. split; [apply walk_published; exact Hin|exact Hb].
+    - intros (e & c & -> & Hp & Hb). exists c. split; [apply walk_published; exact Hp|exact Hb].
+  Qed.
+
+  Lemma signing_certs_walk (md : metadata cert) issuer c :
+    In c (signing_certs blank md issuer) -> In c (walk_certs md issuer).
+  Proof. unfold signing_certs. destruct (existsb blank (walk_certs md issuer)); [intros []|auto]. Qed.
+
+  Lemma signing_certs_noblank (md : metadata cert) issuer :
+    ~ blank_published blank md issuer -> signing_certs blank md issuer = walk_certs md issuer.
+  Proof.
+    intros H. unfold signing_certs. destruct (existsb blank (walk_certs md issuer)) eqn:E; [|reflexivity].
+    exfalso. apply H, blank_walk_iff, E.
+  Qed.
+
+  Lemma signing_certs_published (md : metadata cert) e c :
+    In c (signing_certs blank md (Some e)) -> published_for_signing md e c.
+  Proof. intros H. apply walk_published, signing_certs_walk, H. Qed.
+
+  Lemma candidates_trusted (x : input cert msg sig) c :
+    sguard blank x -> In c (candidates blank x) -> trusted_for x c.
+  Proof.
+    unfold candidates, trusted_for. intros G.
+    destruct (detached x) eqn:Ed.
+    - intros H. destruct (claimed x) as [e|] eqn:Ec.
+      + left. exists e. split; [reflexivity|]. apply signing_certs_published; exact H.
+      + apply signing_certs_walk in H. destruct H.
+    - destruct (signing_certs blank (md x) (claimed x)) as [|c0 r] eqn:Es.
+      + destruct (only_md x) eqn:Eo; [intros []|]. intros H. right. repeat split; auto.
+        intros e c' Hc Hp.
+        assert (Hnb : ~ blank_published blank (md x) (claimed x)) by (apply G; assumption).
+        rewrite (signing_certs_noblank _ _ Hnb) in Es. rewrite Hc in Es.
+        apply walk_published in Hp. rewrite Es in Hp. exact Hp.
+      + intros H. destruct (claimed x) as [e|] eqn:Ec.
+        * left. exists e. split; [reflexivity|]. apply signing_certs_published. rewrite Es. exact H.
+        * assert (Hin : In c0 (signing_certs blank (md x) None)) by (rewrite Es; left; reflexivity).
+          apply signing_certs_walk in Hin. destruct Hin.
   Qed.
 
   Lemma try_certs_handed cs mm ss c : In c (snd (try_certs verify cs mm ss)) -> In c cs.
@@ -73,64 +104,302 @@ Section Proofs.
         * intros [c [[<-|Hin] Hv]]; [congruence|exists c; auto].
   Qed.
 
-  Lemma accept_sound (x : input cert msg sig) : sound cert_of sign x (accept verify x).
+  Lemma try_detached_handed cs mm ss c : In c (snd (try_detached verify readable cs mm ss)) -> In c cs.
   Proof.
-    unfold sound, accept. split; [|split].
-    - intros c Hc. apply candidates_trusted. exact (try_certs_handed _ _ _ _ Hc).
-    - intros H. apply try_certs_true in H as [c [_ Hv]]. apply verify_spec in Hv as [k [_ Hs]].
+    induction cs as [|c0 r IH]; cbn [try_detached]; [intros []|].
+    destruct (readable c0); [|intros []].
+    destruct (verify c0 mm ss).
+    - cbn. intros [<-|[]]. left; reflexivity.
+    - destruct (try_detached verify readable r mm ss) as [ok h]. cbn [snd] in *.
+      intros [<-|H]; [left; reflexivity|right; exact (IH H)].
+  Qed.
+
+  Lemma try_detached_true cs mm ss :
+    fst (try_detached verify readable cs mm ss) = true -> exists c, In c cs /\ verify c mm ss = true.
+  Proof.
+    induction cs as [|c0 r IH]; cbn [try_detached]; [discriminate|].
+    destruct (readable c0); [|discriminate].
+    destruct (verify c0 mm ss) eqn:V.
+    - intros _. exists c0. split; [left; reflexivity|exact V].
+    - destruct (try_detached verify readable r mm ss) as [ok h]. cbn [fst] in *. intros H.
+      destruct (IH H) as [c [Hin Hv]]. exists c. split; [right; exact Hin|exact Hv].
+  Qed.
+
+  Lemma hits_unreadable_iff cs mm ss :
+    hits_unreadable verify readable cs mm ss = true <-> unreadable_first verify readable cs mm ss.
+  Proof.
+    unfold unreadable_first. induction cs as [|c0 r IH]; cbn [hits_unreadable].
+    - split; [discriminate|]. intros (pre & c & post & E & _). destruct pre; discriminate.
+    - destruct (readable c0) eqn:R.
+      + destruct (verify c0 mm ss) eqn:V.
+        * split; [discriminate|]. intros (pre & c & post & E & Rc & Hpre). destruct pre as [|p pre'].
+          -- cbn in E. injection E as E1 E2. subst c. congruence.
+          -- cbn in E. injection E as E1 E2. subst p. rewrite (Hpre c0 (or_introl eq_refl)) in V. discriminate.
+        * rewrite IH. split.
+          -- intros (pre & c & post & E & Rc & Hpre). subst r. exists (c0 :: pre), c, post. split; [reflexivity|].
+             split; [exact Rc|]. intros c' [E'|Hin]; [subst c'; exact V|exact (Hpre c' Hin)].
+          -- intros (pre & c & post & E & Rc & Hpre). destruct pre as [|p pre'].
+             ++ cbn in E. injection E as E1 E2. subst c. congruence.
+             ++ cbn in E. injection E as E1 E2. subst p r. exists pre', c, post. split; [reflexivity|]. split; [exact Rc|].
+                intros c' Hin. apply Hpre. right; exact Hin.
+      + split; [intros _|reflexivity]. exists [], c0, r. split; [reflexivity|]. split; [exact R|intros c' []].
+  Qed.
+
+  Lemma try_detached_complete cs mm ss :
+    hits_unreadable verify readable cs mm ss = false ->
+    (exists c, In c cs /\ verify c mm ss = true) -> fst (try_detached verify readable cs mm ss) = true.
+  Proof.
+    induction cs as [|c0 r IH]; cbn [hits_unreadable try_detached].
+    - intros _ [c [[] _]].
+    - destruct (readable c0); [|discriminate].
+      destruct (verify c0 mm ss) eqn:V; [reflexivity|].
+      intros Hh [c [[<-|Hin] Hv]]; [congruence|].
+      destruct (try_detached verify readable r mm ss) as [ok h]. cbn [fst] in *. apply IH; [exact Hh|].
+      exists c. auto.
+  Qed.
+
+  Lemma accept_true (x : input cert msg sig) :
+    fst (accept verify readable blank x) = true -> exists c, In c (candidates blank x) /\ verify c (m x) (s x) = true.
+  Proof.
+    unfold accept. destruct (detached x); [apply try_detached_true|apply try_certs_true].
+  Qed.
+
+  Lemma accept_handed (x : input cert msg sig) c :
+    In c (snd (accept verify readable blank x)) -> In c (candidates blank x).
+  Proof.
+    unfold accept. destruct (detached x); [apply try_detached_handed|apply try_certs_handed].
+  Qed.
+
+  (* soundness: readable certificates or not; outside finding C03-F2 *)
+  Lemma accept_sound (x : input cert msg sig) :
+    sguard blank x -> sound cert_of sign x (accept verify readable blank x).
+  Proof.
+    intros G. unfold sound. split; [|split].
+    - intros c Hc. apply candidates_trusted; [exact G|]. exact (accept_handed _ _ Hc).
+    - intros H. apply accept_true in H as [c [_ Hv]]. apply verify_spec in Hv as [k [_ Hs]].
       exists k. exact Hs.
-    - intros H k Hk. apply try_certs_true in H as [c [Hin Hv]]. apply verify_spec in Hv as [k' [-> Hs]].
-      unfold made_by in Hk. rewrite Hk in Hs. apply sign_inj in Hs. subst k'. apply candidates_trusted; exact Hin.
+    - intros H k Hk. apply accept_true in H as [c [Hin Hv]]. apply verify_spec in Hv as [k' [-> Hs]].
+      unfold made_by in Hk. rewrite Hk in Hs. apply sign_inj in Hs. subst k'.
+      apply candidates_trusted; [exact G|exact Hin].
   Qed.
 
-  Lemma accept_complete (x : input cert msg sig) : complete cert_of sign x (accept verify x).
+  (* with the default only_use_keys_in_metadata = true soundness has no exception at all *)
+  Lemma accept_sound_default (x : input cert msg sig) :
+    only_md x = true -> sound cert_of sign x (accept verify readable blank x).
+  Proof. intros Ho. apply accept_sound. intros Hf. congruence. Qed.
+
+  (* detached signatures never use the embedded certificate: no exception either *)
+  Lemma accept_sound_detached (x : input cert msg sig) :
+    detached x = true -> sound cert_of sign x (accept verify readable blank x).
+  Proof. intros Hd. apply accept_sound. intros _ Hf. congruence. Qed.
+
+  (* completeness: outside the finding classes *)
+  Lemma accept_complete (x : input cert msg sig) :
+    guard verify readable blank x -> complete cert_of sign x (accept verify readable blank x).
   Proof.
-    unfold complete, accept. intros k e Hk He Hp. apply try_certs_true. exists (cert_of k). split.
-    - apply signing_certs_published in Hp. unfold candidates. rewrite He.
-      destruct (detached x); [exact Hp|]. destruct (signing_certs (md x) (Some e)); [contradiction|exact Hp].
-    - apply verify_spec. exists k. split; [reflexivity|exact Hk].
+    unfold complete, accept, guard. intros [Gb G] k e Hk He Hp.
+    assert (Hv : verify (cert_of k) (m x) (s x) = true).
+    { apply verify_spec. exists k. split; [reflexivity|exact Hk]. }
+    apply walk_published in Hp. rewrite <- He in Hp.
+    pose proof (signing_certs_noblank _ _ Gb) as Es.
+    destruct (detached x) eqn:Ed.
+    - apply try_detached_complete.
+      + unfold candidates. rewrite Ed, Es.
+        destruct (hits_unreadable verify readable _ (m x) (s x)) eqn:Hh; [|reflexivity].
+        exfalso. apply (G eq_refl). apply hits_unreadable_iff. exact Hh.
+      + exists (cert_of k). split; [|exact Hv]. unfold candidates. rewrite Ed, Es. exact Hp.
+    - apply try_certs_true. exists (cert_of k). split; [|exact Hv].
+      unfold candidates. rewrite Ed, Es. destruct (walk_certs (md x) (claimed x)); [contradiction|exact Hp].
   Qed.
 
-  Lemma trust_holds (x : input cert msg sig) : spec cert_of sign x (accept verify x).
+  Lemma trust_holds (x : input cert msg sig) :
+    gspec cert_of sign verify readable blank x (accept verify readable blank x).
   Proof. split; [apply accept_sound|apply accept_complete]. Qed.
+
+  (* both guards hold whenever every KeyDescriptor the issuer publishes for signing carries a certificate
+     that loads (stated on the metadata, not on the walk order) *)
+  Lemma usable_md_guards (x : input cert msg sig) :
+    (forall e c, claimed x = Some e -> published_for_signing (md x) e c -> readable c = true /\ blank c = false) ->
+    sguard blank x /\ guard verify readable blank x.
+  Proof.
+    intros H. assert (Hnb : ~ blank_published blank (md x) (claimed x)).
+    { intros (e & c & He & Hp & Hb). destruct (H e c He Hp) as [_ Hb']. congruence. }
+    split; [intros _ _; exact Hnb|]. split; [exact Hnb|].
+    intros _ (pre & c & post & E & Rc & _).
+    destruct (claimed x) as [e|] eqn:Ec.
+    - assert (Hin : In c (walk_certs (md x) (Some e))) by (rewrite E; apply in_or_app; right; left; reflexivity).
+      apply walk_published in Hin. destruct (H e c eq_refl Hin) as [Hr _]. congruence.
+    - cbn [walk_certs] in E. destruct pre; discriminate.
+  Qed.
+
+  Lemma trust_usable_md (x : input cert msg sig) :
+    (forall e c, claimed x = Some e -> published_for_signing (md x) e c -> readable c = true /\ blank c = false) ->
+    spec cert_of sign x (accept verify readable blank x).
+  Proof.
+    intros H. destruct (usable_md_guards x H) as [G1 G2].
+    split; [apply accept_sound, G1|apply accept_complete, G2].
+  Qed.
+
+  (* enveloped (XML) signatures are outside finding class C03-F1 altogether *)
+  Lemma trust_enveloped (x : input cert msg sig) :
+    detached x = false -> ~ blank_published blank (md x) (claimed x) ->
+    spec cert_of sign x (accept verify readable blank x).
+  Proof.
+    intros Hd Hnb. split; [apply accept_sound; intros _ _; exact Hnb|apply accept_complete].
+    split; [exact Hnb|]. intros Hd'. congruence.
+  Qed.
 
   (* corollaries named in the property text (defaults: only_md = true) *)
   Lemma unknown_issuer_rejected (x : input cert msg sig) :
-    only_md x = true -> (forall e, claimed x = Some e -> lookup_md e (md x) = None) -> fst (accept verify x) = false.
+    only_md x = true -> (forall e, claimed x = Some e -> lookup_md e (md x) = None) ->
+    fst (accept verify readable blank x) = false.
   Proof.
-    intros Ho Hu. unfold accept, candidates. assert (E : signing_certs (md x) (claimed x) = []).
-    { unfold signing_certs. destruct (claimed x) as [e|]; [|reflexivity]. rewrite (Hu e eq_refl). reflexivity. }
+    intros Ho Hu. unfold accept, candidates. assert (E : signing_certs blank (md x) (claimed x) = []).
+    { unfold signing_certs, walk_certs. destruct (claimed x) as [e|]; [|reflexivity]. rewrite (Hu e eq_refl). reflexivity. }
     rewrite E, Ho. destruct (detached x); reflexivity.
+  Qed.
+
+  (* ---- the long-lived receiver: every verification is judged against the metadata loaded by the last
+     successful (re)load before it, whatever was verified or loaded earlier ---- *)
+  Lemma run_ops_length init only ops :
+    length (run_ops verify readable blank init only ops) = nchecks ops.
+  Proof.
+    revert init. induction ops as [|o r IH]; intros init; [reflexivity|].
+    destruct o as [m'| |q]; cbn [run_ops]; unfold nchecks in *; cbn [filter is_check length]; auto.
+  Qed.
+
+  Lemma run_ops_spec (P : input cert msg sig -> bool * list cert -> Prop) :
+    (forall x, P x (accept verify readable blank x)) ->
+    forall ops init only, seq_spec P init only ops (run_ops verify readable blank init only ops).
+  Proof.
+    intros HP ops. induction ops as [|o r IH]; intros init only; split; try apply run_ops_length.
+    - intros pre q post E. destruct pre; discriminate.
+    - intros pre q post E. destruct o as [m'| |q0]; cbn [run_ops].
+      + destruct pre as [|p pre']; [discriminate|]. cbn in E. injection E as <- ->.
+        destruct (IH m' only) as [_ H]. destruct (H pre' q post eq_refl) as [o [Hn Ho]].
+        exists o. split; [exact Hn|exact Ho].
+      + destruct pre as [|p pre']; [discriminate|]. cbn in E. injection E as <- ->.
+        destruct (IH init only) as [_ H]. destruct (H pre' q post eq_refl) as [o [Hn Ho]].
+        exists o. split; [exact Hn|exact Ho].
+      + destruct pre as [|p pre'].
+        * cbn in E. injection E as -> _. exists (accept verify readable blank (at_md init only q)).
+          split; [reflexivity|apply HP].
+        * cbn in E. injection E as <- ->.
+          destruct (IH init only) as [_ H]. destruct (H pre' q post eq_refl) as [o [Hn Ho]].
+          exists o. split; [exact Hn|exact Ho].
+  Qed.
+
+  Lemma receiver_trust ops init only :
+    seq_spec (gspec cert_of sign verify readable blank) init only ops (run_ops verify readable blank init only ops).
+  Proof. apply run_ops_spec. exact trust_holds. Qed.
+
+  (* with the default flag every verification of every life is sound, no exception *)
+  Lemma receiver_sound_default ops init :
+    seq_spec (sound cert_of sign) init true ops (run_ops verify readable blank init true ops).
+  Proof.
+    assert (H : seq_spec (fun x o => only_md x = true -> sound cert_of sign x o) init true ops
+                  (run_ops verify readable blank init true ops)).
+    { apply run_ops_spec. intros x. apply accept_sound_default. }
+    destruct H as [L H]. split; [exact L|]. intros pre q post E. destruct (H pre q post E) as [o [Hn Ho]].
+    exists o. split; [exact Hn|apply Ho; reflexivity].
+  Qed.
+
+  (* the property text's "loaded metadata" made explicit: a key that the set loaded now does not
+     publish for the claimed issuer does not validate, whatever an earlier set published and whatever
+     was verified before the reload *)
+  Lemma withdrawn_key_rejected pre mdx post q k e init only :
+    q_s q = sign k (q_m q) -> q_claimed q = Some e -> only = true ->
+    ~ published_for_signing mdx e (cert_of k) ->
+    nth_error (run_ops verify readable blank init only (pre ++ Reload mdx :: Check q :: post)) (nchecks pre) =
+      Some (accept verify readable blank (at_md mdx only q))
+    /\ fst (accept verify readable blank (at_md mdx only q)) = false.
+  Proof.
+    intros Hs Hc Ho Hn. split.
+    - revert init. induction pre as [|o pre' IH]; intros init; [reflexivity|].
+      destruct o as [m'| |q0]; cbn [app run_ops]; unfold nchecks in *; cbn [filter is_check length nth_error]; apply IH.
+    - destruct (fst (accept verify readable blank (at_md mdx only q))) eqn:Ea; [|reflexivity]. exfalso.
+      destruct (accept_sound_default (at_md mdx only q)) as (_ & _ & H3); [exact Ho|].
+      specialize (H3 Ea k Hs). destruct H3 as [[e' [He' Hp]]|[Hf _]].
+      + cbn in He'. rewrite Hc in He'. injection He' as <-. exact (Hn Hp).
+      + cbn in Hf. congruence.
   Qed.
 End Proofs.
 
 (* ---- term-algebra instance: the hypotheses are satisfiable, and the model runs ---- *)
 Definition ikey := nat.
-Definition icert := nat.
+(* a certificate of the instance: the certificate of key k, published octets that are no certificate, or
+   the place of the certificate in a KeyDescriptor that carries none *)
+Inductive icert := Gd (k : nat) | Jk (n : nat) | Bl (n : nat).
 Definition imsg := nat.
 Definition isig := (nat * nat)%type.
-Definition icert_of (k : ikey) : icert := k.
+Definition icert_of (k : ikey) : icert := Gd k.
 Definition isign (k : ikey) (mm : imsg) : isig := (k, mm).
-Definition iverify (c : icert) (mm : imsg) (ss : isig) : bool := Nat.eqb c (fst ss) && Nat.eqb mm (snd ss).
+Definition iverify (c : icert) (mm : imsg) (ss : isig) : bool :=
+  match c with Gd k => Nat.eqb k (fst ss) && Nat.eqb mm (snd ss) | _ => false end.
+Definition ireadable (c : icert) : bool := match c with Gd _ => true | _ => false end.
+Definition iblank (c : icert) : bool := match c with Bl _ => true | _ => false end.
 
 Lemma iverify_spec c mm ss : iverify c mm ss = true <-> exists k, c = icert_of k /\ ss = isign k mm.
 Proof.
-  unfold iverify, icert_of, isign. rewrite andb_true_iff, !Nat.eqb_eq. destruct ss as [a b]. cbn [fst snd]. split.
-  - intros [-> ->]. exists a. auto.
-  - intros [k [-> [= -> ->]]]. auto.
+  unfold iverify, icert_of, isign. destruct ss as [a b]. cbn [fst snd]. destruct c as [k0|n|n].
+  - rewrite andb_true_iff, !Nat.eqb_eq. split.
+    + intros [-> ->]. exists a. auto.
+    + intros [k [[= ->] [= -> ->]]]. auto.
+  - split; [discriminate|]. intros [k [[=] _]].
+  - split; [discriminate|]. intros [k [[=] _]].
 Qed.
 
 Lemma isign_inj k k' mm : isign k mm = isign k' mm -> k = k'.
 Proof. intros [= ->]. reflexivity. Qed.
 
-Lemma instance_trust (x : input icert imsg isig) : spec icert_of isign x (accept iverify x).
+Lemma instance_trust (x : input icert imsg isig) :
+  gspec icert_of isign iverify ireadable iblank x (accept iverify ireadable iblank x).
 Proof. apply trust_holds; [exact iverify_spec|exact isign_inj]. Qed.
+
+Lemma instance_receiver ops init only :
+  seq_spec (gspec icert_of isign iverify ireadable iblank) init only ops (run_ops iverify ireadable iblank init only ops).
+Proof. apply receiver_trust; [exact iverify_spec|exact isign_inj]. Qed.
 
 (* non-vacuity: metadata with a signing, a rotated signing and an encryption-only key *)
 Example rotated_key_accepted_encryption_key_rejected :
-  let mdx : metadata icert := [("idp", [[(Some Signing, 1); (Some Signing, 2); (Some Encryption, 3)]]); ("other", [[(None, 4)]])] in
-  let x k := Build_input mdx true (Some "idp") [k] false 7 (isign k 7) in
-  accept iverify (x 2) = (true, [1; 2]) /\ accept iverify (x 3) = (false, [1; 2]) /\ accept iverify (x 4) = (false, [1; 2])
-  /\ accept iverify (Build_input mdx false (Some "nobody") [6] false 7 (isign 6 7)) = (true, [6])
-  /\ accept iverify (Build_input mdx true (Some "nobody") [6] false 7 (isign 6 7)) = (false, []).
+  let mdx : metadata icert := [("idp", [[(Some Signing, Gd 1); (Some Signing, Gd 2); (Some Encryption, Gd 3)]]); ("other", [[(None, Gd 4)]])] in
+  let x k := Build_input mdx true (Some "idp") [Gd k] false 7 (isign k 7) in
+  accept iverify ireadable iblank (x 2) = (true, [Gd 1; Gd 2]) /\ accept iverify ireadable iblank (x 3) = (false, [Gd 1; Gd 2])
+  /\ accept iverify ireadable iblank (x 4) = (false, [Gd 1; Gd 2])
+  /\ accept iverify ireadable iblank (Build_input mdx false (Some "nobody") [Gd 6] false 7 (isign 6 7)) = (true, [Gd 6])
+  /\ accept iverify ireadable iblank (Build_input mdx true (Some "nobody") [Gd 6] false 7 (isign 6 7)) = (false, []).
+Proof. vm_compute. repeat split; reflexivity. Qed.
+
+(* non-vacuity of the receiver: key 1 validates while published, stops validating once the reloaded set
+   publishes only key 2, key 2 validates from then on; a failed reload changes nothing; an issuer added
+   by a reload validates from then on *)
+Example rotation_over_reloads :
+  let g1 : metadata icert := [("idp", [[(Some Signing, Gd 1)]])] in
+  let g2 : metadata icert := [("idp", [[(Some Signing, Gd 2)]]); ("new", [[(None, Gd 6)]])] in
+  let ck e k d := Check (Build_query (Some e) [] d 7 (isign k 7)) in
+  run_ops iverify ireadable iblank g1 true
+    [ck "idp" 1 false; ck "idp" 2 false; ck "new" 6 true; ReloadFailed; ck "idp" 1 true;
+     Reload g2; ck "idp" 1 false; ck "idp" 2 false; ck "idp" 1 true; ck "new" 6 true]
+  = [(true, [Gd 1]); (false, [Gd 1]); (false, []); (true, [Gd 1]);
+     (false, [Gd 2]); (true, [Gd 2]); (false, [Gd 2]); (true, [Gd 6])].
+Proof. vm_compute. reflexivity. Qed.
+
+(* the finding class is inhabited only by detached signatures: an unreadable certificate ahead of the
+   signer's one ends the loop; the XML path goes on to the next certificate *)
+Example unreadable_certificate_first :
+  let mdx : metadata icert := [("sp", [[(Some Signing, Jk 0); (Some Signing, Gd 1)]])] in
+  accept iverify ireadable iblank (Build_input mdx true (Some "sp") [] true 7 (isign 1 7)) = (false, [])
+  /\ accept iverify ireadable iblank (Build_input mdx true (Some "sp") [] false 7 (isign 1 7)) = (true, [Jk 0; Gd 1]).
+Proof. vm_compute. split; reflexivity. Qed.
+
+(* a KeyDescriptor without certificate hides every key of the issuer; with the opt-in fallback on, the
+   embedded certificate is then used although metadata does publish a key for that issuer (C03-F2) *)
+Example keydescriptor_without_certificate :
+  let mdx : metadata icert := [("idp", [[(Some Signing, Gd 1); (None, Bl 0)]])] in
+  accept iverify ireadable iblank (Build_input mdx true (Some "idp") [] false 7 (isign 1 7)) = (false, [])
+  /\ accept iverify ireadable iblank (Build_input mdx true (Some "idp") [] true 7 (isign 1 7)) = (false, [])
+  /\ accept iverify ireadable iblank (Build_input mdx false (Some "idp") [Gd 6] false 7 (isign 6 7)) = (true, [Gd 6])
+  /\ accept iverify ireadable iblank
+       (Build_input [("idp", [[(Some Signing, Gd 1); (Some Encryption, Bl 0)]])] false (Some "idp") [Gd 6] false 7 (isign 6 7))
+     = (false, [Gd 1]).
 Proof. vm_compute. repeat split; reflexivity. Qed.
